@@ -155,6 +155,14 @@ SPECS: List[Spec] = [
      replace_expr_where("_is_local", lambda n: isinstance(n, ast.Compare) and "get_kind" in ast.unparse(n) and isinstance(n.ops[0], ast.Eq),
                         const(True)), ["R01.3"]),
     ("C01", "global-handler-deleted", "rope/base/pyobjectsdef.py", delete_method("_ScopeVisitor", "_Global"), ["R01.2"]),
+    ("C01", "edits-not-sorted", "rope/base/codeanalyze.py",
+     remove_stmt_where("ChangeCollector.get_changed", lambda s: isinstance(s, ast.Expr) and ".sort(" in ast.unparse(s)), ["R01.5"]),
+    ("C01", "tail-dropped", "rope/base/codeanalyze.py",
+     remove_stmt_where("ChangeCollector.get_changed", lambda s: isinstance(s, ast.If) and "last_changed < len" in ast.unparse(s.test)), ["R01.5"]),
+    ("C01", "py-suffix-for-packages-too", "rope/refactor/rename.py",
+     replace_expr_where("Rename._rename_module", lambda n: isinstance(n, ast.UnaryOp) and "is_folder" in ast.unparse(n), const(True)), ["R01.6"]),
+    ("C01", "call-keyword-falls-through", "rope/base/evaluate.py",
+     remove_stmt_where("ScopeNameFinder.get_primary_and_pyname_at", lambda s: isinstance(s, ast.Return) and ast.unparse(s) == "return (None, None)"), ["R01.4"]),
     # C02
     ("C02", "same_pyname-one-sided", "rope/refactor/occurrences.py",
      replace_expr_where("same_pyname", lambda n: isinstance(n, ast.BoolOp) and isinstance(n.op, ast.Or) and "is None" in ast.unparse(n),
